@@ -1,6 +1,7 @@
 import Sml.Lemmas.DecRound
 import Sml.Lemmas.DecBasic
 import Sml.Lemmas.DecRoundCap
+import Sml.Props.C14
 /-
   Helper lemmas for C08 (re-synchronisation of the push decoder).
 
@@ -10,7 +11,9 @@ import Sml.Lemmas.DecRoundCap
      completes exactly when the consumed bytes end with the start sequence (`hit_iff`).
   2. Noise without a start sequence, then the start sequence (`noise_start`).
   3. A start sequence in the middle of a transmission, decoder in state `Normal` (`restart`).
-  4. Prefixes of a frame (`cut_*`).
+  4. Prefixes of a frame (`cut_*`), and input after which the decoder is in state `Normal`
+     followed by a frame (`resync_after`).
+  5. Continuations after an idle history (`pushAll_after_idle`, from C14).
 -/
 
 namespace Sml
@@ -448,7 +451,11 @@ theorem resync_after (d : Dec) (a m : List UInt8)
     rw [← Dec.frame_eq_START_drop8]
   rw [hsplit, Dec.pushAll_append, Dec.pushAll_append, restart _ hst, hout, hraw]
   simp only [h1, h2, h3, and_self, and_true]
-  simp [List.replicate_add]
+  have e : List.replicate (a.length + 7) Out.none =
+      List.replicate a.length Out.none ++ List.replicate 7 Out.none :=
+    List.replicate_append_replicate.symm
+  rw [e]
+  simp [List.replicate]
 
 open Spec (frame) in
 theorem cut_then_frame (cap : Option Nat) (m1 m2 : List UInt8) (k : Nat)
@@ -477,7 +484,7 @@ theorem cut_payload_then_frame (cap : Option Nat) (p m : List UInt8) (hc : ctr 0
       (Dec.pushAll (Dec.fresh cap) ((START ++ stuff p) ++ frame m)).1.buf.data = m := by
   have h8 := start_decodes (Dec.fresh cap) rfl
   have hS : Dec.St { Dec.fresh cap with st := .normal, raw := 8, crc := startCrc } 8 startCrc
-      (Dec.stOf 0) cap [] := ⟨rfl, rfl, rfl, rfl, rfl, by simp [Dec.fresh]⟩
+      (Dec.stOf 0) cap [] := ⟨rfl, by simp only, rfl, rfl, rfl, by simp [Dec.fresh]⟩
   obtain ⟨d1, data1, hq, hs, _⟩ := Dec.sim_stuff p _ 0 8 startCrc cap [] (by omega) hS
     (by simpa using hp)
   rw [hc, Dec.stOf_zero] at hs
@@ -488,7 +495,8 @@ theorem cut_payload_then_frame (cap : Option Nat) (p m : List UInt8) (hc : ctr 0
     have : Spec.stuffFrom 0 p = stuff p := rfl
     rw [this] at hq
     rw [Dec.pushAll_quiet hq]
-    simp [List.replicate_add, START]
+    simp only [List.length_append, ← List.replicate_append_replicate]
+    rfl
   refine resync_after _ _ _ (by rw [hrun]) (by rw [hrun]; exact hs.st) ?_ (by rw [hrun, hs.cap]; exact hm)
   rw [hrun]
   have := hs.raw
@@ -496,6 +504,37 @@ theorem cut_payload_then_frame (cap : Option Nat) (p m : List UInt8) (hc : ctr 0
   have h8l : START.length = 8 := rfl
   rw [h8l]
   exact this
+
+open Spec (stuff ctr) in
+/-- the control state after the start sequence and the stuffed payload bytes `p` -/
+theorem cut_payload_state (cap : Option Nat) (p : List UInt8) (hp : fitsCap cap p.length) :
+    (Dec.pushAll (Dec.fresh cap) (START ++ stuff p)).1.st =
+      if ctr 0 p = 0 then .normal else .escChars (ctr 0 p) := by
+  have h8 := start_decodes (Dec.fresh cap) rfl
+  have hS : Dec.St { Dec.fresh cap with st := .normal, raw := 8, crc := startCrc } 8 startCrc
+      (Dec.stOf 0) cap [] := ⟨rfl, by simp only, rfl, rfl, rfl, by simp [Dec.fresh]⟩
+  obtain ⟨d1, data1, hq, hs, _⟩ := Dec.sim_stuff p _ 0 8 startCrc cap [] (by omega) hS
+    (by simpa using hp)
+  have : Spec.stuffFrom 0 p = stuff p := rfl
+  rw [this] at hq
+  rw [Dec.pushAll_append, h8]
+  simp only
+  rw [Dec.pushAll_quiet hq]
+  exact hs.st
+
+/-! ### idle histories -/
+
+/-- After a history that is empty or ends at a boundary (C14) every byte string is answered as by
+a new decoder. -/
+theorem pushAll_after_idle (cap : Option Nat) (ops : List Op)
+    (h : ops = [] ∨ ∃ o, (Dec.run (Dec.fresh cap) ops).2.getLast? = some o ∧ C14.Boundary o)
+    (s : List UInt8) :
+    (Dec.pushAll (Dec.run (Dec.fresh cap) ops).1 s).2 = (Dec.pushAll (Dec.fresh cap) s).2 := by
+  rcases h with rfl | h
+  · rfl
+  · apply (List.map_inj_right (f := OpOut.out) (fun _ _ h => OpOut.out.inj h)).1
+    rw [(Dec.pushAll_eq_run s _).2, (Dec.pushAll_eq_run s _).2]
+    exact C14.boundary_fresh cap ops h _
 
 end Resync
 end Sml
